@@ -3,9 +3,10 @@
   `src/prompt_toolkit/key_binding/bindings/vi.py`:
 
     * `TextObject.sorted / operator_range / get_line_numbers / cut`
-      (the code after `fix: vi operators do nothing when the motion fails or spans
-      nothing` and after the proposed fix `C08-failing-motion-noop.diff`:
-      `TextObject.spans_nothing`, failing `j` / `k`)
+      (the code as of /repo 45b8a77, i.e. after the fixes 754945d, 91ece3a, 3d7917f, fc80c4b,
+      0c4b424: `TextObject.spans_nothing`, failing `j` / `k`, registers also store one empty
+      line, LINES cut text keeps a selected empty last line; the BLOCK type that only visual
+      block selections produce is not modelled)
     * `Document.cut_selection` / `selection_ranges` for a CHARACTERS / LINES selection in Vi mode
     * the operators `d c y` (+ `"x` register variants), `g? gu gU g~`, `> <`
     * the text objects `h l 0 $ ^ w W b B e E f F t T iw aw iW aW j k G gg`,
@@ -145,8 +146,11 @@ def cutSelection (t : Text) (cursor orig : Nat) (linesSel : Bool) : Doc × Clip 
   let r := selRange t a b linesSel
   let remaining := t.take r.1 ++ t.drop r.2
   let cutText := (t.take r.2).drop r.1
+  -- LINES: drop the newline that terminates the last selected line; when the selection runs to
+  -- the end of the text (`text.find("\n", last) < 0`) a trailing newline is a selected empty line
   ({ text := remaining, cur := r.1 },
-   { text := if linesSel then stripNl cutText else cutText, lines := linesSel })
+   { text := if linesSel && (findChar? '\n' (t.drop b)).isSome then stripNl cutText else cutText,
+     lines := linesSel })
 
 /-- `TextObject.cut(buffer)`; `none` = negative position / `Document` assertion (unreachable
     for in-range offsets). -/
@@ -282,12 +286,12 @@ def nth {α : Type} (l : List α) (count : Nat) : Option α :=
 def findFwd (d : Doc) (c : Char) (inLine : Bool) (count : Nat) : Option Int :=
   let text := if inLine then lineAfter d else d.after
   if text.isEmpty then none
-  else (nth (occ c (text.drop 1)) count).map fun k => (k : Int) + 1
+  else (nth (occ c (text.drop 1)) count).map fun (k : Nat) => (k : Int) + 1
 
 /-- `Document.find_backwards(c, in_current_line, count=count)` -/
 def findBwd (d : Doc) (c : Char) (inLine : Bool) (count : Nat) : Option Int :=
   let text := if inLine then (lineBefore d).reverse else d.before.reverse
-  (nth (occ c text) count).map fun k => -(k : Int) - 1
+  (nth (occ c text) count).map fun (k : Nat) => -(k : Int) - 1
 
 /-- ASCII `[a-zA-Z0-9_]` -/
 def isWordChar (c : Char) : Bool := c.isAlphanum || c = '_'
@@ -312,7 +316,7 @@ def runs (cl : Char → Nat) (t : Text) : List (Nat × Nat) := runsAux cl 0 none
 
 /-- `find_start_of_previous_word(count, WORD)` -/
 def findStartOfPreviousWord (sp : Char → Bool) (d : Doc) (count : Nat) (big : Bool) : Option Int :=
-  (nth (runs (cls sp big) d.before.reverse) count).map fun m => -(m.2 : Int)
+  (nth (runs (cls sp big) d.before.reverse) count).map fun (m : Nat × Nat) => -(m.2 : Int)
 
 /-- `find_next_word_beginning(count, WORD)` (count ≥ 0) -/
 def findNextWordBeginning (sp : Char → Bool) (d : Doc) (count : Nat) (big : Bool) : Option Int :=
@@ -322,11 +326,11 @@ def findNextWordBeginning (sp : Char → Bool) (d : Doc) (count : Nat) (big : Bo
     | (0, _) :: _ => count + 1
     | _ => count
   -- (with count = 0 the first iteration already has `i + 1 > count`, bumped or not)
-  (if count = 0 then none else nth ms count').map fun m => (m.1 : Int)
+  (if count = 0 then none else nth ms count').map fun (m : Nat × Nat) => (m.1 : Int)
 
 /-- `find_next_word_ending(count, WORD)` (include_current_position = False) -/
 def findNextWordEnding (sp : Char → Bool) (d : Doc) (count : Nat) (big : Bool) : Option Int :=
-  (nth (runs (cls sp big) (d.after.drop 1)) count).map fun m => (m.2 : Int) + 1
+  (nth (runs (cls sp big) (d.after.drop 1)) count).map fun (m : Nat × Nat) => (m.2 : Int) + 1
 
 /-- `^(word)` / `^(word\s*)` `.search(t)` → `end(1)` -/
 def currentWordEnd (sp : Char → Bool) (big trailing : Bool) (t : Text) : Option Nat :=
@@ -365,12 +369,12 @@ def walk (inc dec : Char) : Nat → Nat → Text → Option Nat
 /-- `find_enclosing_bracket_right(l, r)` -/
 def enclosingRight (d : Doc) (l r : Char) : Option Int :=
   if currentChar d = some r then some 0
-  else (walk l r 1 1 (d.text.drop (d.cur + 1))).map fun k => (k : Int)
+  else (walk l r 1 1 (d.text.drop (d.cur + 1))).map fun (k : Nat) => (k : Int)
 
 /-- `find_enclosing_bracket_left(l, r)` -/
 def enclosingLeft (d : Doc) (l r : Char) : Option Int :=
   if currentChar d = some l then some 0
-  else (walk r l 1 1 d.before.reverse).map fun k => -(k : Int)
+  else (walk r l 1 1 d.before.reverse).map fun (k : Nat) => -(k : Int)
 
 /-! ### text objects -/
 
